@@ -1,1 +1,13 @@
 //! Stubs used under Kani (DESIGN 2.4).  Each is part of the claim and echoed into evidence.
+
+/// `std::fmt::format` -> empty string: only error/log *messages* are affected.
+pub fn fmt_format(_args: std::fmt::Arguments<'_>) -> String {
+    String::new()
+}
+
+/// `RandomState::new` needs getrandom (unsupported syscall): fixed keys.  HashMap iteration
+/// order is never observed by a claimed property.
+pub fn random_state_new() -> std::collections::hash_map::RandomState {
+    // RandomState is two u64 keys
+    unsafe { std::mem::transmute::<(u64, u64), std::collections::hash_map::RandomState>((0x0123456789abcdef, 0xfedcba9876543210)) }
+}
